@@ -752,24 +752,26 @@ func writeEvidence(e Engine, tier string, seed uint64, m *shardResult, distinct,
 		samples = append(samples, s)
 	}
 	cov := map[string]any{
-		"evaluations":               m.Runs,
-		"distinct_nontrivial":       distinct,
-		"nontrivial_runs":           m.Nontrivial,
-		"rule":                      rule,
-		"samples":                   samples,
-		"simulated_runs_per_hour":   float64(m.Runs) / wallS * 3600,
-		"seeds_per_hour":            float64(m.Runs) / wallS * 3600,
-		"seed_note":                 "one run = one PRNG stream PCG(VERIF_SEED, run index); every run index is its own replayable seed",
-		"simulated_time_steps":      m.Steps,
-		"simulated_time_note":       "the library reads no clock; simulated time is the simulator's logical event count",
-		"faults_fired":              faults,
-		"reach_probes":              probes,
-		"counters":                  m.Stats,
-		"components":                e.Parties(),
-		"workers":                   workers,
-		"stopped_on_wall_clock_cap": m.StoppedWall,
-		"unreached":                 unreached,
-		"known_finding_hits":        m.KnownHits,
+		"evaluations":                m.Runs,
+		"distinct_nontrivial":        distinct,
+		"nontrivial_runs":            m.Nontrivial,
+		"rule":                       rule,
+		"samples":                    samples,
+		"simulated_runs_per_hour":    float64(m.Runs) / wallS * 3600,
+		"seeds_per_hour":             float64(m.Runs) / wallS * 3600,
+		"seed_note":                  "one run = one PRNG stream PCG(VERIF_SEED, run index); every run index is its own replayable seed",
+		"simulated_time_steps":       m.Steps,
+		"simulated_time_note":        "the library reads no clock; simulated time is the simulator's logical event count",
+		"faults_fired":               faults,
+		"reach_probes":               probes,
+		"counters":                   m.Stats,
+		"components":                 e.Parties(),
+		"workers":                    workers,
+		"stopped_on_wall_clock_cap":  m.StoppedWall,
+		"unreached":                  unreached,
+		"known_finding_hits":         m.KnownHits,
+		"dictionary_mined_from_tree": dict.summary(),
+		"dictionary_note":            "literals of the non-test Go files of the tree under test, offered to the generators only (sim/dict.go); VERIF_DICT=0 switches it off",
 	}
 	if f := os.Getenv("VERIF_EXTRA_EVIDENCE"); f != "" {
 		if b, err := os.ReadFile(f); err == nil {
